@@ -1219,8 +1219,9 @@ def c09_build(ctx):
         e = rng.choice([None, 0, 1, 500000000, 999999999, NS, rng.randint(0, 3 * NS)])
         bound = (t + (e or 0)) // NS
         dur = max(0, bound * NS + rng.choice(deltas) + rng.choice([0, 0, NS, -NS]))
-        script = "td %d\n" % t + ("ex %d\n" % e if e is not None else "") + "push dur=%d uri=61\npush dur=%d uri=62" % (rng.randint(0, NS), dur)
-        cases.append(mk("build_media", script, group="builder-random", meta={"dur": dur, "t": t, "e": e}))
+        d1 = rng.randint(0, NS)
+        script = "td %d\n" % t + ("ex %d\n" % e if e is not None else "") + "push dur=%d uri=61\npush dur=%d uri=62" % (d1, dur)
+        cases.append(mk("build_media", script, group="builder-random", meta={"durs": [d1, dur], "t": t, "e": e}))
     # several segments, one of them at a boundary, through text
     for _ in range(ctx.n(1500, 30000)):
         t = rng.choice([1, 2, 10, 30])
@@ -1242,8 +1243,6 @@ def c09_oracle(ctx, cases, impl, model):
         if r.status == "bad-op":
             continue
         durs = c.meta.get("durs") or [c.meta["dur"]]
-        if c.group == "builder-random":
-            durs = None
         t, e = c.meta["t"], c.meta["e"]
         if durs is not None:
             exp = all(c09_rule(d, t, e) for d in durs)
@@ -1653,6 +1652,23 @@ def c05_build(ctx):
             if rng.random() < 0.9:
                 t = G.mutate(rng, t)
             cases.append(mk("type:" + name, t, group="mutant:type"))
+    # two cooperating sites: boundary numbers in byte-range chains, media sequences, target durations / allowances
+    vals = [0, 1, 2**32, 2**63 - 1, 2**63, U64 - 1, U64]
+    for _ in range(ctx.n(3000, 60000)):
+        segs = []
+        for i in range(rng.randint(1, 5)):
+            pick = lambda: rng.choice(vals) if rng.random() < 0.6 else rng.randint(0, 10**6)
+            mp = ("%d@%d" % (pick(), pick()) if rng.random() < 0.7 else "%d" % pick()) if rng.random() < 0.2 else None
+            segs.append((rng.choice(["a.ts", "a.ts", "b.ts"]), rng.choice("NEEIII"), pick(), pick(), mp))
+        cases.append(mk(rng.choice(["rt_media", "media_fromstr"]), c08_render(segs), group="boundary-combo:byterange"))
+    for _ in range(ctx.n(1500, 30000)):
+        text, _, _ = c07_case(rng, mseq=rng.choice([U64, U64 - 1, U64 - 2, 2**63, rng.randint(U64 - 8, U64)]))
+        cases.append(mk("rt_media", text, group="boundary-combo:sequence"))
+    for _ in range(ctx.n(500, 10000)):
+        t = rng.choice([U64, U64 - 1, 2**63, 2**32])
+        d = rng.choice(["%d" % t, "%d.5" % t, "1e19", "1.8446744073709552e19", "18446744073709551615.999999999", "0.999999999", "%d" % (t // 2)])
+        text = "#EXTM3U\n#EXT-X-TARGETDURATION:%d\n#EXTINF:%s,\na.ts\n#EXT-X-DATERANGE:ID=\"a\",DURATION=%s,PLANNED-DURATION=%s\n#EXTINF:1,\nb.ts\n" % (t, d, d, d)
+        cases.append(mk("media_builder", text, rng.choice(["-", "1", "999999999", "1000000000", "18446744073709551615999999999"]), group="boundary-combo:duration"))
     allops = ["media", "master", "rt_media", "rt_master", "lines", "attrs", "unquote"] + ["tag:" + t for t in TAG_OPS] + ["type:" + t for t in TYPE_OPS]
     for _ in range(ctx.n(5000, 100000)):
         cases.append(mk(rng.choice(allops), ("#EXTM3U\n" if rng.random() < 0.5 else "") + G.random_text(rng), group="random-text"))
@@ -2216,4 +2232,126 @@ PROPS["C18"] = {
     "explanation": "theorems: encryptionMethod_rt, hdcpLevel_rt, mediaType_rt, playlistType_rt, protocolVersion_rt, inStreamId_rt (all 67, decide +kernel over the table regenerated from the source), channels_rt, resolution_rt, byteRange_rt, codecs_rt, hexDecode_encode / natToBytes_spec / hexEncode_utf8Len / value_hex_rt, keyFormat_rt, closedCaptions_rt, keyFormatVersions_rt, float_accepts_finite; FL1/FL2 are the named IEEE-754 hypotheses; not yet proved in Lean: InitializationVector, Value::String/Float and the attribute-list tags (C03/C04 carry their tag-level statements) - for those the check relies on the correspondence run and the implementation oracle R:= (parse(to_string(v)) has the same observation as v)",
     "extra_coverage": lambda ctx: {"f32_sweep": getattr(ctx, "sweep", {})},
     "assumptions": ["FL1 (shortest-digit printing of binary32 round-trips) and FL2 (durations < 10^6 s through f64) are validated by execution, not proved"],
+}
+
+
+# ------------------------------------------------------------------------------------------
+# C10
+
+def rfc_min_of_text(text):
+    """RFC 8216 section 7, evaluated on the written text alone"""
+    v = 1
+    has_map = has_ifo = False
+    nver = 0
+    ver = None
+    for l in text.split("\n"):
+        l = l.strip()
+        if l.startswith("#EXT-X-VERSION:"):
+            nver += 1; ver = l[len("#EXT-X-VERSION:"):]
+        elif l.startswith("#EXT-X-KEY:") or l.startswith("#EXT-X-SESSION-KEY:"):
+            if re.search(r"(^|[:,])\s*IV\s*=", l):
+                v = max(v, 2)
+            if re.search(r"(^|[:,])\s*KEYFORMAT(VERSIONS)?\s*=", l):
+                v = max(v, 5)
+        elif l.startswith("#EXTINF:"):
+            d = l[len("#EXTINF:"):].split(",")[0]
+            if "." in d and float(d) != int(float(d)):
+                v = max(v, 3)
+        elif l.startswith("#EXT-X-BYTERANGE:"):
+            v = max(v, 4)
+        elif l.startswith("#EXT-X-I-FRAMES-ONLY"):
+            v = max(v, 4); has_ifo = True
+        elif l.startswith("#EXT-X-MAP:"):
+            v = max(v, 5); has_map = True
+        elif l.startswith("#EXT-X-MEDIA:"):
+            if re.search(r'INSTREAM-ID="SERVICE', l):
+                v = max(v, 7)
+    if has_map and not has_ifo:
+        v = max(v, 6)
+    return v, nver, ver, has_map
+
+
+def c10_build(ctx):
+    rng = ctx.rng
+    cases = []
+    for t in corpus_texts():
+        cases.append(mk("media" if ("#EXTINF" in t or "TARGETDURATION" in t) else "master", t, group="corpus"))
+    for _ in range(ctx.n(4000, 80000)):
+        cases.append(mk("media", G.gen_media(rng, features=ctx.features)[0], group="generated-media"))
+    for _ in range(ctx.n(3000, 60000)):
+        cases.append(mk("master", G.gen_master(rng, features=ctx.features)[0], group="generated-master"))
+    # feature lattice: each version-relevant feature on/off
+    for iv, frac, br, ifo, kf, kfv, mp, sv in itertools.product([0, 1], repeat=8):
+        ls = ["#EXTM3U", "#EXT-X-TARGETDURATION:10"]
+        if ifo: ls.append("#EXT-X-I-FRAMES-ONLY")
+        k = '#EXT-X-KEY:METHOD=AES-128,URI="k"'
+        if iv: k += ",IV=0x000102030405060708090a0b0c0d0e0f"
+        if kf: k += ',KEYFORMAT="f"'
+        if kfv: k += ',KEYFORMATVERSIONS="1/2"'
+        if iv or kf or kfv or sv: ls.append(k)
+        if mp: ls.append('#EXT-X-MAP:URI="m"')
+        if br: ls.append("#EXT-X-BYTERANGE:10@0")
+        ls += ["#EXTINF:%s," % ("1.5" if frac else "2"), "s.ts"]
+        cases.append(mk("media", "\n".join(ls) + "\n", group="feature-lattice"))
+    for ins, kiv, kf in itertools.product(["CC1", "SERVICE1", None], [0, 1], [0, 1]):
+        ls = ["#EXTM3U"]
+        if ins: ls.append('#EXT-X-MEDIA:TYPE=CLOSED-CAPTIONS,GROUP-ID="g",NAME="n",INSTREAM-ID="%s"' % ins)
+        if kiv or kf:
+            ls.append('#EXT-X-SESSION-KEY:METHOD=AES-128,URI="k"' + (",IV=0x000102030405060708090a0b0c0d0e0f" if kiv else "") + (',KEYFORMAT="f"' if kf else ""))
+        cases.append(mk("master", "\n".join(ls) + "\n", group="feature-lattice"))
+    # built playlists
+    for _ in range(ctx.n(500, 10000)):
+        segs = []
+        for i in range(rng.randint(0, 4)):
+            s = "push dur=%d uri=%s" % (rng.choice([NS, 1500000000, 10 * NS]), C.hx("s%d" % i))
+            if rng.random() < 0.3: s += " br=10@%d" % (i * 10)
+            if rng.random() < 0.3: s += " map=" + C.hx("m")
+            if rng.random() < 0.4: s += " key=aes:%s:%s:%s:%s" % (C.hx("k"), rng.choice(["-", "000102030405060708090a0b0c0d0e0f"]), rng.choice(["-", C.hx("f"), C.hx("identity")]), rng.choice(["-", "1/2", "1"]))
+            segs.append(s)
+        script = "td 10000000000\n" + ("ifo 1\n" if rng.random() < 0.2 else "") + "\n".join(segs)
+        cases.append(mk("build_media", script.rstrip("\n"), group="built"))
+    return cases
+
+
+def c10_oracle(ctx, cases, impl, model):
+    fails = []
+    for c, a in zip(cases, impl):
+        r = C.Resp(a)
+        if r.status == "panic":
+            fails.append(dict(describe(c.line, a), what="panicked", law="no-panic")); continue
+        if r.status != "ok":
+            continue
+        text = C.unhx(r.get("T", ""))
+        V = int(r.get("V"))
+        mn, nver, ver, has_map = rfc_min_of_text(text)
+        if nver > 1:
+            fails.append(dict(describe(c.line, a), what="the text contains %d EXT-X-VERSION tags" % nver, law="one-version-tag")); continue
+        if (nver == 0) != (V == 1) or (nver == 1 and ver != str(V)):
+            fails.append(dict(describe(c.line, a), what="EXT-X-VERSION tag %r does not match required_version() = %d (omitted exactly when 1)" % (ver, V), law="version-tag-matches")); continue
+        if V < mn:
+            fails.append(dict(describe(c.line, a), what="emitted version %d is lower than the RFC 8216 section 7 minimum %d of the written text" % (V, mn), law="sound")); continue
+        derived = "ivN" in r.obs
+        slack = max(6 if has_map else 1, 2 if derived else 1)
+        if V > max(mn, slack):
+            dv = bool(re.search(r";v\[1?\]\}", r.obs))
+            fails.append(dict(describe(c.line, a), what="emitted version %d exceeds the RFC minimum %d of the written text (documented slack %d)" % (V, mn, slack), law="inflated",
+                              default_versions_dropped=dv and V == 5))
+    return fails
+
+
+def c10_canon(raw, keys):
+    r = C.Resp(raw)
+    if r.status != "ok":
+        return r.status
+    text = C.unhx(r.get("T", ""))
+    vl = [l for l in text.split("\n") if l.startswith("#EXT-X-VERSION:")]
+    return "ok V:%s %s" % (r.get("V"), vl)
+
+
+PROPS["C10"] = {
+    "build": c10_build, "gate": {"status"}, "canon": c10_canon, "oracle": c10_oracle,
+    "nontrivial": lambda c, a: a.startswith("ok") and " V:1 " not in a,
+    "rule": "generated media and master playlists, the repository fixtures, the full on/off lattice of the version-relevant features (IV attribute, fractional EXTINF, BYTERANGE, I-FRAMES-ONLY, KEYFORMAT, KEYFORMATVERSIONS, MAP, a covering key; SERVICE in-stream ids, session keys) and playlists made through the builder; non-trivial = accepted playlist whose required version is above 1",
+    "explanation": "theorems: media_version_line / media_version_present / master_version_line (exactly one EXT-X-VERSION line carrying required_version(), omitted iff 1), media_version_sound / master_version_sound (the RFC minimum computed from the WRITTEN typed lines never exceeds the emitted version), media_version_not_inflated_partial (emitted version <= max(RFC minimum, slack) with slack = 6 for any MAP, 2 for a derived IV; hypothesis NoDefaultVersions excludes finding K4, proved as k4_counterexample); the writers are defined through typed lines and rendered by Line.render; oracle: an independent Python scan of the real to_string() text",
+    "assumptions": ["the text rendering of each written line is the tag's Display (tied by the correspondence run on the T field in other checks); the gate here compares V and the VERSION line only"],
 }
